@@ -129,7 +129,7 @@ protected:
                                 TypeOneDRule rule, std::vector<int> const &level_limits) const;
 
     void recomputeTensorRefs(const MultiIndexSet &work);
-    void proposeUpdatedTensors();
+    void proposeUpdatedTensors(MultiIndexSet &&proposed_tensors);
     void acceptUpdatedTensors();
     MultiIndexSet getPolynomialSpaceSet(bool interpolation) const;
 
